@@ -967,6 +967,24 @@ class C15(CoreCheck):
             "the real library (harness/method_smoke.c) must select the method Core/MethodSel.v `select` computes; and the virtual "
             "kernel's assumptions probed against Linux (harness/vk_smoke.c)")
 
+    def gen_cases(self, ctx, rng, n):
+        cases = CoreCheck.gen_cases(self, ctx, rng, n)
+        # "a missing eventfd changes nothing": the same raw-event burst on eventfd2, on the old eventfd call and on the pipe
+        # fall-back, with burst sizes around the read size of the fall-back (1024) -- the family of C09 (seed C09_9: the
+        # fall-back loses a burst that is an exact multiple of its read size)
+        for burst in (1, 1000, 1024, 1025, 2048):
+            for fl in (None, "noeventfd2", "noeventfd"):
+                be = rng.choice(self.backends)
+                secs = ["B" + be] + (["X" + fl] if fl else []) + ["M6"]
+                posts = " ".join(["rp0"] * burst)
+                if rng.random() < 0.5:
+                    secs.append("S rr0 " + posts)
+                else:
+                    secs += ["S rr0 tr0+1000000000", "W1:" + posts, "Ht0:-"]
+                secs.append("Hr0:" + rng.choice(["-", "-/ru0"]))
+                cases.append(";".join(secs))
+        return cases
+
     def sibling_stages(self):
         # C15 anchors iv_fd_pump.c (splice missing -> read/write fall-back): both transfer modes are driven by the C17 machinery
         import c17
